@@ -119,7 +119,7 @@ inductive COut where
   | resultUnpicklable
   /-- the compiler is never reached, nor is `__sync__`: `worker_proc.worker` cannot
       unpickle the request (e.g. a compile argument) or `get_handler` fails; it answers
-      status 1 with that ordinary exception -/
+      status 1 with a `FailedStateSync` (since 3499a3b; an ordinary exception before) -/
   | requestUnreadable
 deriving DecidableEq, Repr
 
@@ -281,16 +281,13 @@ def stepCompileRun (env : Env) (st : State) (r : CReq) : State × CObs :=
         | _ => (upd st r.w ⟨b'.forget, a''⟩, ⟨p, cb, .statePickleErr, some used⟩)
 
 /-- The request never reaches `__sync__`: `worker_proc.worker` cannot unpickle it (or
-    `get_handler` fails) and answers status 1 with that ordinary exception.
-    `BaseWorker.call` sees "status 1, not a `FailedStateSync`" and runs the acknowledgement
-    callback: the server records a sync that never happened. -/
+    `get_handler` fails).  Since 3499a3b it answers status 1 with a `FailedStateSync`
+    ("request not processed"): `BaseWorker.call` does not run the acknowledgement
+    callback, `pool.compile` forgets `_last_pickled_state`; nothing else changes. -/
 def stepCompileLost (st : State) (r : CReq) : State × CObs :=
   let ws := st r.w
   let p := preargs ws.bel r
-  let cb := !p.isEmpty
-  match withAck ws.bel r.db p with
-  | none => (upd st r.w ⟨ws.bel.forget, ws.act⟩, ⟨p, cb, .cbAssert, none⟩)
-  | some b' => (upd st r.w ⟨b'.forget, ws.act⟩, ⟨p, cb, .unpickleErr, none⟩)
+  (upd st r.w ⟨ws.bel.forget, ws.act⟩, ⟨p, !p.isEmpty, .syncFail, none⟩)
 
 /-- `AbstractPool.compile` on worker `r.w` -/
 def stepCompile (env : Env) (st : State) (r : CReq) : State × CObs :=
